@@ -41,3 +41,29 @@ Example C08_example :
   option_map (filter visible)
     (wrap [BOther 20; BNL [10;9]%N false; BOther 20; BNL [10;9]%N false; BOther 20; BNL [10]%N false; BOther 13] []).
 Proof. vm_compute. reflexivity. Qed.
+
+(* redundant parentheses: the expression rule of the generated parser (Syntax/ExprParser.v, over the
+   precedence table extracted from the Go source by tools/gen_exprtable.py) reads every admissible
+   way of writing an expression - parentheses where the table requires them, and anywhere else - as
+   the same tree; in particular minimal and maximal parenthesisation agree.  (Operator spellings are
+   the lexer's: one token type per operator, observed by families layout and exprparse.) *)
+From YS Require Import Yarn.Ast Generated.ExprTable Syntax.ExprParser Proofs.ExprParserProofs.
+
+Theorem C08_redundant_parentheses_never_matter : forall e ts1 ts2 k1 k2,
+  Prints level right_prec neg_operand_prec not_operand_prec 0 e ts1 k1 ->
+  Prints level right_prec neg_operand_prec not_operand_prec 0 e ts2 k2 ->
+  eventually (fun fuel => ys_parse_expr fuel 0 ts1) (e, []) /\
+  eventually (fun fuel => ys_parse_expr fuel 0 ts2) (e, []).
+Proof.
+  intros e ts1 ts2 k1 k2 H1 H2.
+  split; [exact (prints_parse _ _ _ _ generated_table_wf e ts1 k1 H1)|exact (prints_parse _ _ _ _ generated_table_wf e ts2 k2 H2)].
+Qed.
+Print Assumptions C08_redundant_parentheses_never_matter.
+
+Theorem C08_minimal_and_maximal_parentheses_agree : forall e,
+  eventually (fun fuel => ys_parse_expr fuel 0 (print_min level right_prec neg_operand_prec not_operand_prec 0 e)) (e, []) /\
+  eventually (fun fuel => ys_parse_expr fuel 0 (paren (print_full e))) (e, []).
+Proof.
+  intros e. split; [exact (parse_print_min _ _ _ _ generated_table_wf e)|exact (parse_print_full _ _ _ _ generated_table_wf e)].
+Qed.
+Print Assumptions C08_minimal_and_maximal_parentheses_agree.
